@@ -49,7 +49,7 @@ func c03Gen(t *rapid.T) c03Plan {
 	if p.Cmd == "rollout-redeploy" && p.Rollout == 0 {
 		p.Rollout = 1
 	}
-	p.DrainMs = rapid.SampledFrom([]int{50, 200, 1000, 5000}).Draw(t, "drain")
+	p.DrainMs = rapid.SampledFrom([]int{0, 50, 200, 1000, 5000}).Draw(t, "drain") // 0: whatever is in flight is cut off at once
 	p.CmdAtMs = rapid.SampledFrom([]int{0, 10, 100}).Draw(t, "cmd-at")
 	sick := rapid.IntRange(0, 4).Draw(t, "sick?") == 0
 	if sick {
